@@ -1032,9 +1032,15 @@ func copyClosure(info *types.Info, body ast.Node, obj types.Object) map[types.Ob
 // Exits that are not return statements with enough results are passed to bad as nil as well.
 func (r *RuleCtx) ReachBadReturn(from []Pt, idx int, bad func(e ast.Expr) bool, avoid func(Pt) bool, avoidEdge func(b *cfgBlock, i int) bool) ([]Pt, bool) {
 	info := r.Info
-	for _, ex := range r.F.Points() {
+	var exits []Pt
+	for _, b := range r.F.G.Blocks {
+		if b.Live && len(b.Succs) == 0 {
+			exits = append(exits, Pt{b, len(b.Nodes)})
+		}
+	}
+	for _, ex := range exits {
 		k, ret := r.F.Exit(ex)
-		if k == NotExit {
+		if k == NotExit || k == ExitPanic {
 			continue
 		}
 		var e ast.Expr
